@@ -93,6 +93,7 @@ type Explorer struct {
 	FuncsSeen map[string]bool
 	NoFork bool // concrete replay mode: never query, follow the model
 	SolverTimeoutMs int
+	pathsOnSolver   int
 }
 
 var X *Explorer
@@ -133,6 +134,12 @@ func (x *Explorer) BeginPath(item WorkItem) {
 func (x *Explorer) EndPath() {
 	if !x.NoFork {
 		x.S.Send("(pop 1)\n")
+		x.pathsOnSolver++
+		if x.pathsOnSolver >= 2000 {
+			// hygiene: a fresh solver process every 2000 paths
+			x.S.Restart()
+			x.pathsOnSolver = 0
+		}
 	}
 }
 
@@ -146,6 +153,9 @@ func (x *Explorer) setModel(m Model) {
 		}
 	}
 	x.ev = NewEvaluator(m)
+	if x.P != nil {
+		x.ev.Prime(x.P.UFApps)
+	}
 }
 
 func (x *Explorer) flushDefs() {
@@ -193,7 +203,7 @@ func (x *Explorer) query(extra ...*Term) (SatResult, Model) {
 	x.St.Queries++
 	var m Model
 	if r == Sat {
-		m = x.S.GetModel(x.P.Vars)
+		m = x.S.GetModel(x.P.Vars, x.P.UFApps)
 	}
 	x.S.Send("(pop 1)\n")
 	if r == Unknown {
@@ -211,10 +221,13 @@ func (x *Explorer) fallback(names []string) (SatResult, Model) {
 		sb.WriteString("(assert " + n + ")\n")
 	}
 	sb.WriteString("(check-sat)\n")
-	if len(x.P.Vars) > 0 {
+	if len(x.P.Vars)+len(x.P.UFApps) > 0 {
 		sb.WriteString("(get-value (")
 		for _, v := range x.P.Vars {
 			sb.WriteString(v.Name + " ")
+		}
+		for _, a := range x.P.UFApps {
+			fmt.Fprintf(&sb, "t%d ", a.id)
 		}
 		sb.WriteString("))\n")
 	}
@@ -225,7 +238,7 @@ func (x *Explorer) fallback(names []string) (SatResult, Model) {
 	}
 	for _, alt := range [][]string{
 		{"cvc5", "--produce-models", "--solve-bv-as-int=sum", "--lang=smt2"},
-		{"z3-new", "-in"},
+		{"z3", "-in"},
 		{"cvc5", "--produce-models", "--lang=smt2"},
 	} {
 		s := script
@@ -349,6 +362,7 @@ func (x *Explorer) Concretise(t *Term, site uint32) uint64 {
 			break
 		}
 		e2 := NewEvaluator(m)
+		e2.Prime(x.P.UFApps)
 		v := e2.Eval(t)
 		x.pushItem(int64(v), site, m)
 		excl = append(excl, BNot(eq(v)))
@@ -487,6 +501,7 @@ func (x *Explorer) Assert(c *Term, label string, where string) {
 		if r == Sat {
 			saved := x.ev
 			x.ev = NewEvaluator(m)
+			x.ev.Prime(x.P.UFApps)
 			x.reportViolation("assert", label, "", where, BNot(c))
 			x.ev = saved
 		}
@@ -534,6 +549,7 @@ func (x *Explorer) reportViolation(kind, label, msg, where string, vcond *Term) 
 		switch r {
 		case Sat:
 			ev := NewEvaluator(m)
+			ev.Prime(x.P.UFApps)
 			v.Model = copyModel(m)
 			v.Inputs = x.witnessInputs(ev)
 			v.Known = ""
